@@ -23,3 +23,41 @@ Theorem C04_out_of_band_inf : forall u s1 s2 i j,
   in_band (sr s1) (sc s2) (sw u s1 s2) i j = false ->
   mget (wps_matrix u s1 s2) (S i) (S j) = Inf.
 Proof. exact wps_out_of_band. Qed.
+
+(* dtw.warping_paths AS WRITTEN (PyWps.wps_code_model: full matrix, band from the regenerated
+   py_wps_j_start/py_wps_j_end, PrunedDTW bookkeeping, border row/column, end scans):
+   - without a bound the computed matrix IS the specification matrix, cell by cell;
+   - with a bound B (max_dist / Euclidean bound) every computed cell either equals the specification
+     cell or both exceed B -- exactly the freedom the property grants -- and the value is the
+     specification value cut at B. *)
+From DV Require Import DtwProps Prune PyDistPrune PyWps PyWpsProofs.
+Import ListNotations.
+
+Theorem C04_code_matrix_is_spec : forall u s1 s2,
+  (1 <= eff_window u (length s1) (length s2))%Z -> (1 <= length s1)%nat -> (1 <= length s2)%nat -> pen_ok u ->
+  (psi_1b u < length s1)%nat \/ (psi_2e u < length s2)%nat ->
+  forall i j, (i <= length s1)%nat -> (j <= length s2)%nat ->
+  mget (wps_code_matrix u s1 s2 Inf) i j = mget (wps_matrix u s1 s2) i j.
+Proof. exact wps_code_matrix_exact. Qed.
+
+Theorem C04_code_matrix_with_bound : forall u s1 s2 B,
+  (1 <= eff_window u (length s1) (length s2))%Z -> (1 <= length s1)%nat -> (1 <= length s2)%nat -> pen_ok u ->
+  (psi_1b u < length s1)%nat \/ (psi_2e u < length s2)%nat ->
+  forall i j, (i <= length s1)%nat -> (j <= length s2)%nat ->
+  let x := mget (wps_code_matrix u s1 s2 B) i j in let y := mget (wps_matrix u s1 s2) i j in
+  x = y \/ (cleb x B = false /\ cleb y B = false).
+Proof. exact wps_code_matrix_cells. Qed.
+
+Theorem C04_code_value : forall u s1 s2 B,
+  (1 <= eff_window u (length s1) (length s2))%Z -> (1 <= length s1)%nat -> (1 <= length s2)%nat -> pen_ok u ->
+  (psi_1b u < length s1)%nat \/ (psi_2e u < length s2)%nat ->
+  wps_code_value u s1 s2 B (wps_code_matrix u s1 s2 B) true = bounded B (dtw_value u s1 s2).
+Proof. intros u s1 s2 B Hw Hr Hc Hp Hpsi. apply (wps_code_value_spec u s1 s2 B Hw Hr Hc Hp Hpsi true). reflexivity. Qed.
+
+Definition ex4_u := {| u_window := Some 2%Z; u_penalty := Some 1%Z; u_max_step := None; u_max_length_diff := None;
+                       u_psi := ((1, 0), (0, 1))%nat; u_inner := SqEuclid |}.
+Example C04_code_model_nonvacuous :
+  wps_code_model ex4_u [[0]; [3]; [1]; [2]]%Z [[0]; [1]; [1]]%Z Inf true =
+  Some (dtw_value ex4_u [[0]; [3]; [1]; [2]]%Z [[0]; [1]; [1]]%Z, wps_matrix ex4_u [[0]; [3]; [1]; [2]]%Z [[0]; [1]; [1]]%Z)
+  /\ dtw_value ex4_u [[0]; [3]; [1]; [2]]%Z [[0]; [1]; [1]]%Z <> Inf.
+Proof. vm_compute. split; [reflexivity|discriminate]. Qed.
